@@ -309,8 +309,9 @@ def r03_3(prog, rep, rid='R03.3'):
         elif isinstance(n.op, ast.Add) and one and \
                 f.name == '_schedule_incoming':
             incs_inc.append((f, n))
-        elif isinstance(n.op, ast.Sub) and one and \
-                f.name == '_unschedule_completed':
+        elif isinstance(n.op, ast.Sub) and f.name == '_unschedule_completed' \
+                and (one or (isinstance(n.value, ast.Call) and
+                             dotted(n.value.func) == 'len')):
             pass    # checked below
         else:
             rep.bad(rid, f, n, '_active_cnt is changed in %s by `%s`: not a '
@@ -325,11 +326,9 @@ def r03_3(prog, rep, rid='R03.3'):
         f, g, var, starts = grant_paths(prog, rep, K, rid)
         smap = I.stmt_node_map(g)
         ids = [smap[id(n)].id for ff, n in incs_try if ff is f]
-        okay = bool(ids) and all(must_pass(g, s, g.exit.id, ids)
-                                 for s in starts)
+        okay = bool(ids) and starts.must_pass(ids)
         # and only on granting paths
-        only = all(not (set(ids) & g.reachable(
-            g.entry.id, skip_nodes=set(starts))) for _ in [0])
+        only = starts.only_granted(ids)
         rep.check(okay and only, rid, f, '%s: _active_cnt += 1 on every '
                   'granting path of _try_allocation and on no other'
                   % K.name, construct='%s:inc' % K.name,
@@ -413,7 +412,40 @@ def r03_3(prog, rep, rid='R03.3'):
     if not queues:
         raise AnalysisError('UNRECOGNISED-IDIOM %s: nothing is appended to %s'
                             % (fu.where, qname))
+    # alternative form: one `-= len(<queue>)` for the whole bulk, executed on
+    # every path from the fill loop to the exit on which the queue is not empty
+    bulk = [d for d in decs if isinstance(d.value, ast.Call) and
+            dotted(d.value.func) == 'len' and d.value.args and
+            unparse(d.value.args[0]) == qname]
+    fill_iter = set()
     for q in queues:
+        for h in smap[id(q)].loops:
+            if g.nodes[h].kind == 'for' and isinstance(g.nodes[h].ast.iter,
+                                                       ast.Name):
+                fill_iter.add(g.nodes[h].ast.iter.id)
+    empties = [(n.id, 'F') for n in g.nodes if n.kind == 'test' and
+               isinstance(n.ast, ast.Name) and n.ast.id in ({qname} |
+                                                            fill_iter)]
+    if bulk and len(bulk) == len(decs):
+        bn = smap[id(bulk[0])]
+        fill_heads = {h for q in queues for h in smap[id(q)].loops}
+        after_fill = [e.dst for h in fill_heads for e in g.succ[h]
+                      if e.label == 'done']
+        okb = len(bulk) == 1 and not (set(bn.loops) & fill_heads) and all(
+            g.exit.id not in g.reachable(s0, skip_nodes={bn.id},
+                                         skip_edges=empties)
+            for s0 in after_fill)
+        rep.check(okb, rid, fu, '_active_cnt -= len(%s) once for the whole '
+                  'bulk, on every path with a non-empty queue' % qname,
+                  construct='bulk-decrement', message='the bulk decrement '
+                  '`%s` is not executed exactly once on every path on which '
+                  '%s holds tasks' % (short(bulk[0], 40), qname),
+                  loc=fu.loc(bulk[0]), history='N tasks finish: the count '
+                  'drops by != N')
+        queues_to_pair, decs_to_pair = [], []
+    else:
+        queues_to_pair, decs_to_pair = queues, decs
+    for q in queues_to_pair:
         qn = smap[id(q)]
         paired = [d for d in decs
                   if set(guards(g, smap[id(d)].id)) == set(guards(g, qn.id))
@@ -424,7 +456,7 @@ def r03_3(prog, rep, rid='R03.3'):
                   'decrement(s) of _active_cnt under the same conditions'
                   % (short(q, 40), len(paired)), loc=fu.loc(q),
                   history='N tasks finish: the count drops by != N')
-    for dn in decs:
+    for dn in decs_to_pair:
         d = smap[id(dn)]
         paired = [q for q in queues
                   if set(guards(g, smap[id(q)].id)) == set(guards(g, d.id))
@@ -439,8 +471,8 @@ def r03_3(prog, rep, rid='R03.3'):
                 n.id in g.reachable(g.entry.id, skip_nodes={H.id}):
             gs = guards(g, n.id)
             empty = any(isinstance(g.nodes[t].ast, ast.Name) and
-                        g.nodes[t].ast.id == qname and lab == 'F'
-                        for t, lab in gs)
+                        g.nodes[t].ast.id in ({qname} | fill_iter) and
+                        lab == 'F' for t, lab in gs)
             rep.check(empty, rid, fu, 'return before the release loop only '
                       'when %s is empty' % qname, construct=n.ast,
                       message='_unschedule_completed can return before the '
@@ -656,24 +688,24 @@ def run(prog, rep, tier):
         'resource_config.Node/NodeList',
         'zmq pubsub delivers every published unschedule message once',
     ]
-    r03_1(prog, rep)
-    r03_2(prog, rep)
-    r03_3(prog, rep)
+    rep.attempt(r03_1, prog, rep)
+    rep.attempt(r03_2, prog, rep)
+    rep.attempt(r03_3, prog, rep)
     rep.rule('R04.4', 'a release is reported to the scheduler loop (first '
              'result of _unschedule_completed)', minimum=1)
     rep.rule('R03.4b', 'single writer of occupancy (R01.1)', minimum=8)
-    r01_1(prog, rep, rid='R03.4b')
-    r03_5(prog, rep)
-    r03_6(prog, rep)
+    rep.attempt(r01_1, prog, rep, rid='R03.4b')
+    rep.attempt(r03_5, prog, rep)
+    rep.attempt(r03_6, prog, rep)
     try:
         from . import c07
         if hasattr(c07, 'r07_1'):
             # only the release side matters here: the late-cancel path
             # (known finding K2 of C07) hands on twice but releases once
-            c07.r07_1(prog, rep, rid='R03.4', pub_only=True)
+            rep.attempt(c07.r07_1, prog, rep, rid='R03.4', pub_only=True)
             # releases racing with cancellation: both contenders release only
             # after the locked test-and-remove
-            c07.r07_2(prog, rep, rid='R07.2')
+            rep.attempt(c07.r07_2, prog, rep, rid='R07.2')
     except ImportError:
         pass
 
